@@ -132,6 +132,9 @@ pub enum Arg {
 pub struct Func {
     #[serde(default)]
     pub sty: u8,
+    /// further attributes, printed verbatim among the others (a second calling_convention, unknown ones)
+    #[serde(default)]
+    pub more: Vec<String>,
     pub vis: bool,
     pub name: String,
     pub doc: Vec<String>,
@@ -353,6 +356,16 @@ pub fn print_func(out: &mut String, ind: &str, f: &Func) {
     if let Some(c) = &f.cc {
         attrs.push(format!("calling_convention({:?})", c));
     }
+    // `more` attributes keep their place relative to the declared convention: "<" in front means before it
+    for a in &f.more {
+        match a.strip_prefix('<') {
+            Some(a) => {
+                let pos = attrs.iter().position(|x| x.starts_with("calling_convention")).unwrap_or(0);
+                attrs.insert(pos, a.to_string());
+            }
+            None => attrs.push(a.clone()),
+        }
+    }
     head(out, ind, &f.doc, attrs, f.sty);
     let args: Vec<String> = f
         .args
@@ -400,6 +413,11 @@ pub fn print_type(out: &mut String, t: &TypeDef) {
         attrs.push("defaultable".into());
     }
     head(out, "", &t.doc, attrs, t.sty);
+    // style bit 4: a type without fields and without a vftable block in its body-less form
+    if t.fields.is_empty() && t.vft.is_none() && t.sty & 0x10 != 0 {
+        let _ = writeln!(out, "{}type {};", if t.vis { "pub " } else { "" }, t.name);
+        return;
+    }
     let _ = writeln!(out, "{}type {} {{", if t.vis { "pub " } else { "" }, t.name);
     if let Some(v) = &t.vft {
         if let Some(s) = &v.size {
